@@ -22,6 +22,8 @@ def corpus(ctx):
     n = 20 if ctx.tier == "quick" else 300
     for i in range(n):
         progs["gen_%d_%d" % (ctx.seed, i)] = pretty(Gen(ctx.seed * 9000011 + i).program())
+    for i in range(n // 3):                  # HashMap instructions
+        progs["genmap_%d_%d" % (ctx.seed, i)] = pretty(Gen(ctx.seed * 9000011 + 500000 + i, features={"maps": True}).program())
     return progs
 
 
@@ -76,7 +78,7 @@ def run(ctx):
         "hook H7 is part of the trusted base: it reports, as deltas against its own shadow copies, everything in stack, top frame, globals and containers "
         "that changed between two hook points; object identities come from the H2 registry",
         "float arithmetic, float/str conversions and int<->float comparisons are specified by type only (value unspecified)",
-        "hash map access, cross-module calls and element-wise array arithmetic are not specified (accepted, counted by name)",
+        "cross-module calls, element-wise array arithmetic and hash-map keys of mixed kinds are not specified (accepted, counted by name); the position of a new hash-map entry is not prescribed",
         "strings longer than 64 bytes are compared by length (and content key for equality)"]
 
 
